@@ -238,7 +238,9 @@ func (c *checker) clauses(dc docCase, ob *observed, report func(desc string, ok 
 	byID := map[string]*node{}
 	kindSet := map[string]bool{}
 	for i, l := range all {
-		pos[l.tok[:4]] = i
+		if !l.floating {
+			pos[l.tok[:4]] = i
+		}
 		byID[l.tok[:4]] = l
 		kindSet[l.kind] = true
 	}
